@@ -11,9 +11,9 @@ package c11
 
 import (
 	"bytes"
-	"math"
 	"encoding/json"
 	"fmt"
+	"math"
 	"os"
 	"path/filepath"
 	"regexp"
@@ -329,10 +329,10 @@ func checksOf(idx int, envJSON []byte, accepted bool) ([]*check, error) {
 }
 
 var (
-	reDocRefTax   = regexp.MustCompile(`^(/lines/[0-9]+/document|/preceding/[0-9]+|/ordering/[a-z]+/[0-9]+)/tax(/|$)`)
-	rePaymentTax  = regexp.MustCompile(`^/tax/categories(/|$)`)
-	reExtValue    = regexp.MustCompile(`/ext/[^/]+$`)
-	reTracking    = regexp.MustCompile(`^/tracking(/|$)`)
+	reDocRefTax  = regexp.MustCompile(`^(/lines/[0-9]+/document|/preceding/[0-9]+|/ordering/[a-z]+/[0-9]+)/tax(/|$)`)
+	rePaymentTax = regexp.MustCompile(`^/tax/categories(/|$)`)
+	reExtValue   = regexp.MustCompile(`/ext/[^/]+$`)
+	reTracking   = regexp.MustCompile(`^/tracking(/|$)`)
 )
 
 // classifyOne names the triaged trigger one schema complaint falls under ("" = none).
@@ -694,4 +694,3 @@ func schemaPatterns(repo string) (pats []string, err error) {
 	sort.Strings(pats)
 	return
 }
-
